@@ -245,6 +245,8 @@ type chunkResult struct {
 	ClassCounts map[string]uint64 `json:"class_counts"`
 	Panic       string            `json:"panic,omitempty"`
 	PanicIndex  uint64            `json:"panic_index,omitempty"`
+	SlowNs      int64             `json:"slow_ns"`
+	SlowIdx     uint64            `json:"slow_idx"`
 }
 
 // ---------- known findings ----------
